@@ -140,7 +140,7 @@ class Check(common.Check):
             x = Fraction(float(x) + rng.uniform(-0.01, 0.01))
         return [fnum(x, tys[0] == 'I'), fnum(lo, tys[1] == 'I'), fnum(hi, tys[2] == 'I')]
 
-    def gen_quant(self, rng, tys, approx):
+    def gen_quant(self, rng, tys, approx, near=False):
         r = rng.random()
         if tys[1] == 'I':
             q = Fraction(rng.choice([1, 1, 2, 3, 4, 5, 7, 8, 12]))
@@ -161,6 +161,13 @@ class Check(common.Check):
             x = Fraction(int(x))
         elif approx:
             x = Fraction(float(x) + rng.uniform(-0.01, 0.01))
+        elif near and q > 0 and rng.random() < 0.25:
+            # a hair beside a multiple of the quantum: one ulp, or 1e-10 quanta (as binary64 values)
+            import math
+            m = float(q * rng.choice([-9, -8, -5, -4, -3, -2, -1, 1, 2, 3, 4, 5, 6, 7, 8, 9]))   # not 0: no denormals
+            x = Fraction(rng.choice([math.nextafter(m, math.inf), math.nextafter(m, -math.inf),
+                                     m + 1e-10 * float(q), m - 1e-10 * float(q),
+                                     m + 2.0 ** -36 * float(q), m - 2.0 ** -36 * float(q)]))
         return [fnum(x, tys[0] == 'I'), fnum(q, tys[1] == 'I')]
 
     def pattern(self, rng, n):
@@ -193,7 +200,7 @@ class Check(common.Check):
                 c['then'] = 'clip2'
         elif r < 0.62:
             name = rng.choice(LAWQ)
-            c = {'k': name, 'a': self.gen_quant(rng, self.pattern(rng, 2), approx)}
+            c = {'k': name, 'a': self.gen_quant(rng, self.pattern(rng, 2), approx, near=True)}
         elif r < 0.72:
             tys = self.pattern(rng, 2)
             a, b = self.gen_quant(rng, tys[::-1] if False else tys, approx)
@@ -212,7 +219,16 @@ class Check(common.Check):
                     x = x - 60
             if rng.random() < 0.1 and dom == 'pos':
                 x = rng.choice([Fraction(440), Fraction(1), Fraction(220), Fraction(880), Fraction(1, 2)])
-            c = {'k': f, 'a': [fnum(x)], 'then': g}
+            as_int = rng.random() < 0.4          # Python ints as well: small, negative, beyond any table
+            if as_int:
+                if dom == 'pos':
+                    x = Fraction(rng.choice([rng.randint(1, 200), rng.randint(1, 20000), 2 ** rng.randint(0, 40)]))
+                else:
+                    x = Fraction(rng.choice([rng.randint(-140, 140), rng.randint(-1500, 1500), rng.randint(-70, -1),
+                                             rng.choice([-129, -128, -127, -1, 0, 127, 128, 129])]))
+                    if f == 'octcps':
+                        x = Fraction(int(x / 12))
+            c = {'k': f, 'a': [fnum(x, as_int)], 'then': g}
             approx = True
         else:
             name = rng.choice(sorted(names) or ['mod'])
